@@ -434,6 +434,9 @@ class SqlTextOutputStream(FileOutputStream):
     def flush(self):
         self.sql_db.flush()
 
+    def commit(self):
+        self.sql_db.commit()
+
     def _dump_db(self):
         "Dump a database as a sql file"
         self.sql_db.commit()
@@ -636,9 +639,19 @@ class MultiplexOutputStream(OutputStream):
         for stream in self.outputstreams:
             stream.write_row(tablename, row_with_references)
 
-    def close(self, **kwargs) -> Optional[Sequence[str]]:
+    def commit(self):
         for stream in self.outputstreams:
-            stream.close()
+            stream.commit()
+
+    def close(self, **kwargs) -> Optional[Sequence[str]]:
+        first_error = None
+        for stream in self.outputstreams:
+            try:
+                stream.close()
+            except Exception as e:  # close the remaining streams anyway
+                first_error = first_error or e
+        if first_error:
+            raise first_error
 
     def write_single_row(self, tablename: str, row: Dict) -> None:
         raise NotImplementedError()  # should never be called
